@@ -87,7 +87,7 @@ func runC13(c *engine.Ctx, tier string) {
 			{"C13.2g", "utils.TemporaryEvaluate", 1},
 		} {
 			outcomeOn(c, engine.Outcome{ID: chk.id, Pkg: pkgNbGnmi, Min: chk.min,
-				When: "#failed(" + chk.callee + ")", MustNot: []engine.Sel{create, {Call: "store/v2/transaction.Store.Watch"}}, Returns: "err!=nil",
+				When: "#everFailed(" + chk.callee + ")", MustNot: []engine.Sel{create, {Call: "store/v2/transaction.Store.Watch"}}, Returns: "err!=nil",
 				Why: "a request refused by " + chk.callee + " is answered with an error and logs nothing"}, sp)
 		}
 		c.Guard(engine.Guard{ID: "C13.2h", Pkg: pkgNbGnmi, Min: 1, Sel: create, PathsOverride: sp,
@@ -100,6 +100,209 @@ func runC13(c *engine.Ctx, tier string) {
 	wholeStringValidity(c)
 	// (4) addressing
 	addressing(c, sp, err)
+	targetResolution(c)
+	limitWiring(c)
+	// "a path that is not a writable model path": the model check is made on the rendered path string, so a
+	// '/' inside one element's name must not render as an element boundary
+	escapeAgreementAs(c, "C13.9")
+}
+
+// limitWiring: C13.10. The limit Set enforces (C13.4) is the configured one.
+func limitWiring(c *engine.Ctx) {
+	o := c.Custom("C13.10", "K-dataflow(limit wiring)", "Service.Register builds the Server it registers with gnmiSetSizeLimit = the value of strconv.Atoi applied to the GNMI_SET_SIZE_LIMIT environment variable on the path where the conversion succeeded",
+		"the guard of C13.4 reads Server.gnmiSetSizeLimit: a server registered with the zero value never refuses an over-sized Set")
+	defer o.Done(1)
+	ps, err := c.A.PathsOpt(pkgNbGnmi, engine.PathOpts{Roots: []string{".Service.Register"}, NoInline: true})
+	if err != nil || len(ps) == 0 {
+		o.Undecided("Service.Register", fmt.Sprintf("no paths: %v", err))
+		return
+	}
+	okPath := false
+	for _, p := range ps {
+		var atoi *engine.Event
+		for i := range p.Events {
+			if e := &p.Events[i]; e.Kind == engine.EvCall && e.CalleeName == "strconv.Atoi" && len(e.Args) == 1 && strings.Contains(e.Args[0], `"GNMI_SET_SIZE_LIMIT"`) {
+				atoi = e
+			}
+		}
+		for i := range p.Events {
+			e := &p.Events[i]
+			if e.Kind != engine.EvCall || e.CalleeName != "gnmi.RegisterGNMIServer" || len(e.Args) != 2 {
+				continue
+			}
+			o.Site(c.P.Pos(e.Pos))
+			o.Eval(1)
+			converted := false
+			if atoi != nil {
+				for _, l := range engine.CondsBefore(p, i) {
+					if l.L == "err("+atoi.Canon+")" && l.RNil && l.Mask == 2 {
+						converted = true
+					}
+				}
+			}
+			if !converted {
+				continue
+			}
+			okPath = true
+			if !strings.Contains(e.Args[1], "gnmiSetSizeLimit:"+atoi.Canon+",") && !strings.Contains(e.Args[1], "gnmiSetSizeLimit:"+atoi.Canon+"}") {
+				o.Fail(&engine.Violation{Key: "Service.Register|limit not wired", Pos: c.P.Pos(e.Pos), Func: p.Root.Name(),
+					Msg: "the registered Server does not carry the converted GNMI_SET_SIZE_LIMIT in gnmiSetSizeLimit on the path where the conversion succeeded: " + c.Render(e.Args[1])})
+				return
+			}
+		}
+	}
+	if !okPath {
+		o.Fail(&engine.Violation{Key: "Service.Register|limit not read", Pos: pkgNbGnmi, Func: "Service.Register",
+			Msg: "no path registers the Server after a successful strconv.Atoi of GNMI_SET_SIZE_LIMIT"})
+	}
+}
+
+// targetResolution: C13.7. What getTargetInfo does for one operation, path by path.
+func targetResolution(c *engine.Ctx) {
+	o := c.Custom("C13.7", "K-facts(target resolution)", "in getTargetInfo, with T = the prefix target if non-empty else the operation's own target (both cases occur): targets[T] present => that entry is returned and nothing is written; absent => the Configurable of topo.ID(T) is fetched, type/version come from overrides[T] when present and non-nil, otherwise from the Configurable (and are then recorded in overrides[T]), the plugin is looked up by exactly that type/version, a failed fetch or a missing plugin returns an error and registers nothing, success registers under targets[T] the very record that is returned, with targetID T, that plugin, type/version from the plugin's info and allocated updates/removes",
+		"unknown target or model is refused before anything is logged, and all operations of one target accumulate in one record")
+	defer o.Done(6)
+	ps, err := c.A.PathsOpt(pkgNbGnmi, engine.PathOpts{Roots: []string{".Server.getTargetInfo"}})
+	if err != nil || len(ps) == 0 {
+		o.Undecided("getTargetInfo", fmt.Sprintf("no paths: %v", err))
+		return
+	}
+	reported := map[string]bool{}
+	fail := func(p *engine.Path, i int, msg string) {
+		if reported[msg] {
+			return
+		}
+		reported[msg] = true
+		o.Fail(&engine.Violation{Key: "getTargetInfo|" + msg, Pos: c.P.Pos(p.Events[i].Pos), Func: p.Root.Name(), Msg: msg, Path: c.PathTrace(p, i)})
+	}
+	classes := map[string]int{}
+	for _, p := range ps {
+		last := len(p.Events) - 1
+		ret := &p.Events[last]
+		if ret.Kind != engine.EvReturn || len(ret.Results) != 2 {
+			continue
+		}
+		o.Eval(1)
+		conds := engine.CondsBefore(p, last)
+		has := func(l string) int { // +1 assumed true, -1 assumed false, 0 not assumed
+			for _, x := range conds {
+				if x.L == l && x.R == "true" {
+					if x.Mask == 2 {
+						return 1
+					}
+					return -1
+				}
+			}
+			return 0
+		}
+		T := ""
+		for _, x := range conds {
+			if x.L == "len($id)" && x.R == "0" {
+				if x.Mask == 4 {
+					T = "$id"
+				} else if x.Mask&4 == 0 {
+					T = "config/v2.TargetID($idPrefix)"
+				}
+			}
+		}
+		if T == "" {
+			fail(p, last, "a path of getTargetInfo does not decide between the prefix target and the operation's own target (len(prefix target) > 0 is not consulted)")
+			continue
+		}
+		classes[T]++
+		o.Site("")
+		var targetsWrite, ovWrite, getCfg, getPlugin *engine.Event
+		fields := map[string]string{}
+		for i := range p.Events[:last] {
+			e := &p.Events[i]
+			switch {
+			case e.Kind == engine.EvWrite && strings.HasPrefix(e.LHS, "$targets["):
+				if targetsWrite != nil || e.LHS != "$targets["+T+"]" {
+					fail(p, i, "the target record is registered under "+c.Render(e.LHS)+" where $targets["+T+"] (once) is required")
+				}
+				targetsWrite = e
+			case e.Kind == engine.EvWrite && strings.HasPrefix(e.LHS, "$TargetVersionOverrides.Overrides[") && strings.HasSuffix(e.LHS, "]"):
+				ovWrite = e
+			case e.Kind == engine.EvWrite && strings.HasPrefix(e.Field, "northbound/gnmi/v2.targetInfo."):
+				fields[strings.TrimPrefix(e.Field, "northbound/gnmi/v2.targetInfo.")] = e.RHS
+			case e.Kind == engine.EvCall && e.CalleeName == "northbound/gnmi/v2.Server.getTargetConfigurable":
+				getCfg = e
+			case e.Kind == engine.EvCall && e.CalleeName == "pluginregistry.PluginRegistry.GetPlugin":
+				getPlugin = e
+			}
+		}
+		okRet := ret.Results[1] == "nil"
+		switch has("has($targets[" + T + "])") {
+		case 1:
+			if ret.Results[0] != "$targets["+T+"]" || !okRet || targetsWrite != nil || getCfg != nil {
+				fail(p, last, "a target already seen in this request is not simply returned: its record (and the operations collected in it) would be replaced")
+			}
+			continue
+		case 0:
+			fail(p, last, "a path of getTargetInfo does not look the resolved target up in the request's target table")
+			continue
+		}
+		if getCfg == nil || len(getCfg.Args) != 1 || getCfg.Args[0] != "topo.ID("+T+")" {
+			fail(p, last, "the Configurable aspect is not fetched for the resolved target topo.ID("+T+")")
+			continue
+		}
+		if !okRet {
+			if targetsWrite != nil {
+				fail(p, last, "a refused target is registered in the request's target table")
+			}
+			continue
+		}
+		// success: everything below must have happened
+		if getPlugin == nil || len(getPlugin.Args) != 2 || has("ok("+getPlugin.Canon+")") != 1 {
+			fail(p, last, "a target is accepted without a model plugin having been found for it")
+			continue
+		}
+		ov := "$TargetVersionOverrides.Overrides[string(" + T + ")]"
+		fromOv := has("has("+ov+")") == 1
+		for _, x := range conds {
+			if x.L == ov && x.RNil && x.Mask == 2 {
+				fromOv = false
+			}
+		}
+		if fromOv {
+			if getPlugin.Args[0] != ov+".TargetType" || getPlugin.Args[1] != ov+".TargetVersion" || ovWrite != nil {
+				fail(p, last, "with a type/version override for the target, the plugin is looked up by "+c.Render(strings.Join(getPlugin.Args, ", "))+" (or the override is rewritten)")
+			}
+		} else {
+			if !strings.HasPrefix(getPlugin.Args[0], "config/v2.TargetType(") || !strings.HasSuffix(getPlugin.Args[0], "topo.Configurable).Type)") ||
+				!strings.HasPrefix(getPlugin.Args[1], "config/v2.TargetVersion(") || !strings.HasSuffix(getPlugin.Args[1], "topo.Configurable).Version)") {
+				fail(p, last, "without an override the plugin is looked up by "+c.Render(strings.Join(getPlugin.Args, ", "))+", not by the Configurable aspect's type and version")
+			}
+			if ovWrite == nil || ovWrite.LHS != ov || !strings.Contains(ovWrite.RHS, "TargetType:"+getPlugin.Args[0]) || !strings.Contains(ovWrite.RHS, "TargetVersion:"+getPlugin.Args[1]) {
+				fail(p, last, "the type/version taken from the Configurable aspect are not recorded in the request's overrides under the resolved target: the controllers downstream would validate against another model")
+			}
+		}
+		if targetsWrite == nil || !strings.HasPrefix(targetsWrite.RHS, "&northbound/gnmi/v2.targetInfo{") || ret.Results[0] != targetsWrite.RHS {
+			fail(p, last, "the record returned for the operation is not the one registered under the resolved target")
+			continue
+		}
+		plug := getPlugin.Canon
+		want := map[string]func(string) bool{
+			"targetID":      func(v string) bool { return v == T },
+			"plugin":        func(v string) bool { return v == plug },
+			"targetType":    func(v string) bool { return v == "config/v2.TargetType({"+plug+"}pluginregistry.ModelPlugin.GetInfo().Info.Name)" },
+			"targetVersion": func(v string) bool { return v == "config/v2.TargetVersion({"+plug+"}pluginregistry.ModelPlugin.GetInfo().Info.Version)" },
+			"persistent":    func(v string) bool { return strings.HasSuffix(v, "topo.Configurable).Persistent") },
+			"updates":       func(v string) bool { return strings.HasPrefix(v, "make(") },
+			"removes":       func(v string) bool { return strings.HasPrefix(v, "make(") },
+		}
+		for _, f := range []string{"targetID", "plugin", "targetType", "targetVersion", "persistent", "updates", "removes"} {
+			if v, ok := fields[f]; !ok || !want[f](v) {
+				fail(p, last, "the target record's field "+f+" is "+c.Render(v)+" (missing when empty)")
+			}
+		}
+	}
+	if len(classes) == 2 {
+		o.Site("getTargetInfo: both target classes (prefix target / own target) resolved")
+	} else {
+		o.Fail(&engine.Violation{Key: "getTargetInfo|precedence classes", Pos: pkgNbGnmi, Func: "getTargetInfo",
+			Msg: fmt.Sprintf("only %d of the two cases {prefix target non-empty, prefix target empty} occur: the prefix target no longer overrides the operation's own target (or the other way round)", len(classes))})
+	}
 }
 
 // outcomeOn evaluates an Outcome obligation on an explicit path set.
@@ -317,8 +520,11 @@ func addressing(c *engine.Ctx, sp []*engine.Path, err error) {
 	}
 	if nT > 0 {
 		o.Site("getTargetInfo: targetID resolved on all paths")
+	} else {
+		o.Undecided("getTargetInfo", "anchor not found: no write of targetInfo.targetID")
 	}
 	// stored paths
+	jsonBase := false
 	for _, root := range []string{".Server.doUpdateOrReplace", ".Server.doDelete"} {
 		dp, err := c.A.PathsOpt(pkgNbGnmi, engine.PathOpts{Roots: []string{root}, NoInline: true})
 		if err != nil {
@@ -326,10 +532,36 @@ func addressing(c *engine.Ctx, sp []*engine.Path, err error) {
 			continue
 		}
 		n := 0
+		classes := map[bool]bool{}
 		for _, p := range dp {
 			for i := range p.Events {
 				e := &p.Events[i]
 				var stored string
+				if e.Kind == engine.EvCall && strings.HasSuffix(e.CalleeName, "pluginregistry.ModelPlugin.GetPathValues") && len(e.Args) == 2 {
+					// a JSON document is resolved relative to the same effective path
+					o.Eval(1)
+					opPath, prefix := "utils.StrPath($Update.Path)", "utils.StrPath($Path)"
+					noPrefix, noOwn := false, false
+					for _, l := range engine.CondsBefore(p, i) {
+						if l.L == prefix && l.R == `"/"` && l.Mask == 2 {
+							noPrefix = true
+						}
+						if l.L == opPath && l.R == `"/"` && l.Mask == 2 {
+							noOwn = true
+						}
+					}
+					want := `fmt.Sprintf("%s%s",` + prefix + "," + opPath + ")"
+					if noPrefix {
+						want = opPath
+					}
+					if e.Args[0] != want && !(noOwn && e.Args[0] == prefix) {
+						o.Fail(&engine.Violation{Key: root + "|json base path", Pos: c.P.Pos(e.Pos), Func: p.Root.Name(),
+							Msg: "the JSON document is resolved relative to " + c.Render(e.Args[0]) + " where " + c.Render(want) + " is required (the prefix followed by the update's own path; the prefix alone only when the own path is empty)"})
+						return
+					}
+					jsonBase = true
+					continue
+				}
 				switch {
 				case e.Kind == engine.EvWrite && e.Field == "northbound/gnmi/v2.targetInfo.updates[]" && !strings.Contains(e.LHS, "elem("):
 					stored = e.LHS[strings.Index(e.LHS, ".updates[")+len(".updates[") : len(e.LHS)-1]
@@ -355,6 +587,7 @@ func addressing(c *engine.Ctx, sp []*engine.Path, err error) {
 						noPrefix = true
 					}
 				}
+				classes[noPrefix] = true
 				want := `fmt.Sprintf("%s%s",` + prefix + "," + opPath + ")"
 				if noPrefix {
 					want = opPath
@@ -369,6 +602,13 @@ func addressing(c *engine.Ctx, sp []*engine.Path, err error) {
 					return
 				}
 			}
+		}
+		if n > 0 && len(classes) < 2 {
+			o.Fail(&engine.Violation{Key: root + "|prefix classes", Pos: pkgNbGnmi, Func: root,
+				Msg: "only one of the cases {request prefix empty, request prefix non-empty} is distinguished when the stored path is built"})
+		}
+		if root == ".Server.doUpdateOrReplace" && !jsonBase {
+			o.Undecided(root, "anchor not found: no call of ModelPlugin.GetPathValues")
 		}
 		if n > 0 {
 			o.Site(root + ": stored path checked on every recording path")
